@@ -126,6 +126,14 @@ func Harness_C19_DecodeFields() {
 // which run lengths and placements interact (3 or 4 runes, every digit/letter pattern)
 func harnessDecodeClasses(n int) {
 	pattern := verifSplit(uint64(nondetU8("pattern")), 0, uint64(1<<uint(n))-1)
+	harnessDecodePattern(n, pattern)
+}
+
+// the pattern (run length, piece, run length): the one in which a run length that leaves the
+// board is followed by a placement and the final count can still come out right
+func Harness_C19_DecodeDigitPieceDigit() { harnessDecodePattern(3, 2) }
+
+func harnessDecodePattern(n int, pattern uint64) {
 	rs := symRunes(n)
 	for i := 0; i < n; i++ {
 		_, _, isPiece := parsePiece(rs[i])
